@@ -291,7 +291,7 @@ class PointTier(textgrid_tier.TextgridTier):
                 elif point.time > end:
                     newEntries.append(Point(point.time - diff, point.label))
 
-            newMax = newTier.maxTimestamp - diff
+            newMax = max(start, newTier.maxTimestamp - diff)
             newTier = newTier.new(entries=newEntries, maxTimestamp=newMax)
 
         return newTier
